@@ -152,6 +152,30 @@ def exc_tok(e):
     return "err " + type(e).__name__
 
 
+def render_context(element):
+    """solara.render(element, handle_error=False) in two steps: the context exists before rendering, so it can be
+    closed also when rendering raises"""
+    import ipywidgets
+    import reacton.core
+
+    container = ipywidgets.VBox()
+    rc = reacton.core._render_context_class()(element, container, children_trait="children", handle_error=False, initial_state=None)
+    return rc, container
+
+
+def render_once(element):
+    """render a component and close its render context: the space components subscribe to the global update counter,
+    a later force_update (a ctrl scenario in the same worker process) would render them again"""
+    rc, container = render_context(element)
+    try:
+        rc.render(element, container)
+    finally:
+        try:
+            rc.close()
+        except Exception:  # noqa: S110
+            pass
+
+
 # ----------------------------------------------------------------------------------------------
 # the implementation side of a space scenario
 
@@ -409,7 +433,7 @@ class SpaceImpl:
                     # the solara component builds its own Figure; post_process receives the Axes
                     got = []
                     comp = m["make_mpl_space_component"](None if default else self.portrayal, post_process=got.append)
-                    m["solara"].render(comp(self.model), handle_error=False)
+                    render_once(comp(self.model))
                     ax = got[0]
                 else:
                     m["draw_space"](self.space, self.portrayal, ax=ax, **kwargs)
@@ -462,7 +486,7 @@ class SpaceImpl:
                     got = []
                     comp = m["make_altair_space"](None if default else self.portrayal, None,
                                                   post_process=lambda ch: (got.append(ch), ch)[1])
-                    m["solara"].render(comp(self.model), handle_error=False)
+                    render_once(comp(self.model))
                     chart = got[0]
                 else:
                     chart = m["_draw_grid"](self.space, self.portrayal)
@@ -962,16 +986,283 @@ class ParamsImpl:
         raise ValueError(w)
 
 
+# the implementation side of a ctrl scenario: the real SolaraViz, its buttons clicked
+
+
+class LoopOverrun(BaseException):
+    """the play loop did not end where every scenario's loop ends (BaseException: `step` swallows Exception)"""
+
+
+class CtrlImpl:
+    """SolaraViz rendered by solara.render (Sidebar / AppBar replaced by Column: outside an AppLayout their children
+    are not rendered).  Buttons, sliders, the checkbox and the inputs are recorded at solara's boundary and operated
+    through their on_click / on_value; the play loop (the function handed to solara.lab.use_task) is run to its end in
+    this thread, `time.sleep` of mesa.visualization.solara_viz being the point where the scripted user acts."""
+
+    def __init__(self, kind):
+        from contextlib import ExitStack
+
+        self.kind = kind
+        self.stack = ExitStack()
+        self.trace = []
+        self.ready = False
+        self.created = []
+        self.btns, self.sliders, self.widgets, self.tasks, self.checks = [], {}, {}, [], {}
+        self.script, self.sleeps, self.hook, self.tick_steps = None, 0, None, 0
+
+    def close(self):
+        try:
+            if getattr(self, "rc", None) is not None:
+                self.rc.close()
+        except Exception:  # noqa: S110
+            pass
+        self.stack.close()
+
+    # the model class -------------------------------------------------------------------------
+    def model_class(self):
+        m = L()
+        mesa = m["mesa"]
+        impl = self
+
+        if self.kind == "sim":
+            class CtrlModel(mesa.Model):
+                def __init__(self, simulator=None, **kw):
+                    super().__init__()
+                    self.kw = kw
+                    impl.created.append(self)
+                    self.simulator = simulator
+                    simulator.setup(self)
+
+                def step(self):
+                    impl.on_model_step(self)
+        else:
+            class CtrlModel(mesa.Model):
+                def __init__(self, **kw):
+                    super().__init__()
+                    self.kw = kw
+                    impl.created.append(self)
+
+                def step(self):
+                    impl.on_model_step(self)
+        return CtrlModel
+
+    def on_model_step(self, model):
+        stop = model.kw.get("stop")
+        if stop is not None and model.steps >= stop:
+            model.running = False
+        self.tick_steps += 1
+        if self.hook is not None and self.tick_steps == self.hook:
+            self.click(1)
+
+    # solara's boundary -----------------------------------------------------------------------
+    def viz(self, r, t, stop0, items):
+        from unittest import mock
+
+        m = L()
+        sv, solara = m["sv"], m["solara"]
+        import solara.lab
+        from mesa.visualization import utils as U
+
+        self.U = U
+        pv = ParamsImpl()
+        params = {n: pv.make_param(v) for n, v in items}
+        klass = self.model_class()
+        kw0 = {} if stop0 == "-" else {"stop": int(stop0)}
+        extra = {}
+        if self.kind == "sim":
+            from mesa.experimental.devs import ABMSimulator
+
+            self.simulator = ABMSimulator()
+            model0 = klass(simulator=self.simulator, **kw0)
+            extra["simulator"] = self.simulator
+        else:
+            model0 = klass(**kw0)
+
+        def rec_button(orig):
+            def wrapper(*a, **k):
+                self.btns.append((k.get("label"), k.get("on_click"), bool(k.get("disabled", False))))
+                return orig(*a, **k)
+            return wrapper
+
+        def rec_input(kind, orig):
+            def wrapper(*a, **k):
+                label = a[0] if a else k.get("label")
+                cb = k.get("on_value")
+                if label in ("Play Interval (ms)", "Render Interval (steps)", "Use Threads"):
+                    self.sliders[label] = (cb, k.get("value"))
+                else:
+                    name = cb.__defaults__[0] if cb is not None and cb.__defaults__ else "?"
+                    self.widgets[name] = cb
+                return orig(*a, **k)
+            return wrapper
+
+        def fake_use_task(f, *a, **k):
+            self.tasks.append(f)
+
+        def fake_use_thread(f, *a, **k):
+            return None
+
+        impl = self
+
+        class FakeTime:
+            @staticmethod
+            def sleep(_seconds):
+                impl.on_sleep()
+
+        patches = {a: rec_input(a, getattr(solara, a)) for a in ("SliderInt", "SliderFloat", "Select", "Checkbox", "InputText")}
+        st = self.stack
+        st.enter_context(mock.patch.multiple(solara, Button=rec_button(solara.Button), Sidebar=solara.Column, AppBar=solara.Column,
+                                             use_thread=fake_use_thread, **patches))
+        st.enter_context(mock.patch.object(solara.lab, "use_task", fake_use_task))
+        st.enter_context(mock.patch.object(sv, "time", FakeTime))
+        self.updates0 = U.update_counter.value
+        if self.kind == "sim" and t:
+            raise ValueError("threads with a simulator")
+        try:
+            element = sv.SolaraViz(model0, components=[], model_params=params, render_interval=r, use_threads=bool(t), **extra)
+            self.rc, container = render_context(element)
+            self.rc.render(element, container)
+        except ValueError as e:
+            txt = str(e)
+            if txt.endswith("is not a supported input type"):
+                out = "err unsupported " + txt.split()[0]
+            else:
+                out = ParamsImpl().check_tok(lambda: (_ for _ in ()).throw(e))
+            self.trace.append(("viz", items, out))
+            return out
+        self.ready = True
+        self.items = items
+        self.trace.append(("viz", items, "ok"))
+        return self.state("viz", None)
+
+    def click(self, i):
+        """buttons of the last render of the controller: 0 Reset, 1 the play / pause button, 2 Step"""
+        label, cb, disabled = self.btns[-3:][i]
+        if disabled:
+            return False
+        cb()
+        return True
+
+    def facts(self):
+        cur = self.btns[-3:]
+        model = self.created[-1]
+        return {
+            "gen": len(self.created) - 1, "steps": int(model.steps), "mrunning": bool(model.running),
+            "running": not cur[1][2], "playing": cur[1][0] != "\u25b6", "play_dis": cur[1][2], "step_dis": cur[2][2],
+            "labels": [b[0] for b in cur],
+            "render": int(self.sliders["Render Interval (steps)"][1].value),
+            "updates": int(self.U.update_counter.value - self.updates0),
+            "kwargs": dict(model.kw),
+            "threads": bool(self.sliders["Use Threads"][1].value),
+        }
+
+    def state(self, op, arg, before=None, extra=None):
+        f = self.facts()
+        self.trace.append(("ctrl", op, arg, before, f, extra))
+        b = lambda v: "1" if v else "0"  # noqa: E731
+        return (f"ok gen={f['gen']} steps={f['steps']} mrunning={b(f['mrunning'])} running={b(f['running'])} playing={b(f['playing'])}"
+                f" play={'dis' if f['play_dis'] else 'en'} stepb={'dis' if f['step_dis'] else 'en'} render={f['render']}"
+                f" updates={f['updates']} kwargs=" + or_dash(",".join(f"{k}:{ParamsImpl.val_tok(v)}" for k, v in f["kwargs"].items())))
+
+    # the scripted user -----------------------------------------------------------------------
+    def act(self, tok):
+        if tok == "-":
+            return
+        if tok == "pause":
+            self.click(1)
+        elif tok == "reset":
+            self.click(0)
+        elif tok.startswith("render="):
+            self.sliders["Render Interval (steps)"][0](int(tok.split("=")[1]))
+        elif tok.startswith("set:"):
+            _, name, v = tok.split(":")
+            if name in self.widgets:
+                self.widgets[name](int(v))
+        else:
+            raise ValueError(tok)
+
+    def on_sleep(self):
+        self.sleeps += 1
+        self.tick_steps = 0
+        if self.sleeps <= len(self.script):
+            sl, self.hook = self.script[self.sleeps - 1]
+            self.act(sl)
+        elif self.sleeps == len(self.script) + 1:
+            self.hook = None
+            self.click(1)
+        else:
+            raise LoopOverrun()
+
+    def loop(self, evs):
+        import contextlib
+        import io
+
+        self.script = []
+        for t in evs:
+            sl, _, j = t.partition("@")
+            self.script.append((sl, int(j) if j else None))
+        self.sleeps, self.hook, self.tick_steps = 0, None, 0
+        before = self.facts()
+        step = next(f for f in reversed(self.tasks) if getattr(f, "__name__", "") == "step")
+        buf = io.StringIO()
+        try:
+            with contextlib.redirect_stdout(buf):
+                step()
+        except LoopOverrun:
+            self.hook = None
+            self.trace.append(("ctrl-loop-overrun", evs))
+            return "err overrun"
+        finally:
+            self.hook = None
+        return self.state("loop", evs, before, {"ticks": self.sleeps, "printed": buf.getvalue()[:200], "threads": before["threads"]})
+
+    def line(self, w):
+        k = w[0]
+        if k == "viz":
+            return self.viz(int(w[1]), int(w[2]), w[3], [t.split(":", 1) for t in w[4:]])
+        if not self.ready:
+            raise ValueError(w)
+        before = self.facts()
+        if k in ("step", "play", "reset"):
+            if not self.click({"reset": 0, "play": 1, "step": 2}[k]):
+                self.trace.append(("ctrl-disabled", k, before))
+                return "disabled"
+            return self.state(k, None, before)
+        if k == "render":
+            self.sliders["Render Interval (steps)"][0](int(w[1]))
+            return self.state(k, int(w[1]), before)
+        if k == "threads":
+            if self.kind == "sim" and int(w[1]):
+                # SimulatorController's loop waits for its visualisation thread: cannot be run in one thread
+                raise ValueError("threads with a simulator")
+            self.sliders["Use Threads"][0](bool(int(w[1])))
+            return self.state(k, int(w[1]), before)
+        if k == "change":
+            if w[1] not in self.widgets:
+                return "err noinput"
+            self.widgets[w[1]](int(w[2]))
+            return self.state(k, (w[1], int(w[2])), before)
+        if k == "loop":
+            return self.loop(w[1:])
+        raise ValueError(w)
+
+
 def run_impl(sc):
     w0 = sc.lines[0].split()
     assert w0[0] == "scenario"
     if w0[1] == "space":
         impl = SpaceImpl(w0[2], int(w0[3]), int(w0[4]), [int(v) for v in w0[5:]])
+    elif w0[1] == "ctrl":
+        impl = CtrlImpl(w0[2])
     else:
         impl = ParamsImpl()
     obs = ["ok"]
-    for line in sc.lines[1:]:
-        obs.append(impl.line(line.split()))
+    try:
+        for line in sc.lines[1:]:
+            obs.append(impl.line(line.split()))
+    finally:
+        if hasattr(impl, "close"):
+            impl.close()
     sc.meta["trace"] = impl.trace
     return obs
 
@@ -1346,8 +1637,98 @@ def enum_signatures(maxn=3):
     return out
 
 
+CTRL_NAMES = ["n", "a", "b", "z"]
+
+
+def gen_ctrl_param(R, name):
+    """a model_params value; `stop` (compared with model.steps) is always a number or None"""
+    k = R.random()
+    num = name == "stop"
+    if k < 0.3:
+        return f"{name}:val/{R.randrange(10)}", False
+    if k < 0.36 and not num:
+        return f"{name}:fdict", False
+    if k < 0.65:
+        return f"{name}:slider/{R.choice('if')}/{R.randrange(10)}/{R.choice(['N', 'lbl', name])}", True
+    t = R.choice(INPUT_TYPES[:3] if num else INPUT_TYPES) if (num or R.random() < 0.96) else R.choice(["Foo", "slider"])
+    v = "-" if R.random() < 0.1 else str(R.randrange(2) if t == "Checkbox" else R.randrange(10))
+    return f"{name}:spec/{t}/{v}/{R.choice(['-', '-', 'K', 'lbl'])}", True
+
+
+def gen_ctrl(R, tier):
+    kind = "model" if R.random() < 0.65 else "sim"
+    lines = [f"scenario ctrl {kind}"]
+    r = R.choice([1, 1, 2, 3, 4, 5])
+    t = 1 if kind == "model" and R.random() < 0.15 else 0
+    stop0 = "-" if R.random() < 0.25 else str(R.randrange(9))
+    names = (["stop"] if R.random() < 0.65 else []) + R.sample(CTRL_NAMES, R.choice([0, 1, 1, 2, 3]))
+    R.shuffle(names)
+    toks, inputs, unsupported = [], [], False
+    for n in names:
+        tok, adjustable = gen_ctrl_param(R, n)
+        toks.append(tok)
+        if adjustable:
+            inputs.append(n)
+        if tok.split("/")[0].endswith("spec") and tok.split("/")[1] not in INPUT_TYPES:
+            unsupported = True
+    lines.append(" ".join(["viz", str(r), str(t), stop0, *toks]))
+    if unsupported:
+        return core.Scenario(lines, {})
+
+    def pick_input():
+        pool = inputs if inputs and R.random() < 0.92 else (names or ["zz"])
+        n = R.choice(pool)
+        return n, (R.randrange(10) if n != "stop" or R.random() < 0.8 else R.randrange(3))
+
+    def gen_loop():
+        evs = []
+        for _ in range(R.choice([0, 1, 1, 2, 2, 3, 4])):
+            k = R.random()
+            if k < 0.55:
+                e = "-"
+            elif k < 0.66:
+                e = "pause"
+            elif k < 0.73:
+                e = "reset"
+            elif k < 0.85:
+                e = f"render={R.choice([1, 2, 3, 4])}"
+            else:
+                n, v = pick_input()
+                e = f"set:{n}:{v}"
+            if R.random() < 0.15:
+                e += f"@{R.randint(1, 4)}"
+            evs.append(e)
+        return " ".join(["loop", *evs])
+
+    for _ in range(R.randint(3, 12)):
+        k = R.random()
+        if k < 0.25:
+            lines.append("step")
+        elif k < 0.55:
+            if R.random() < 0.9:
+                lines.append("play")
+            lines.append(gen_loop())
+        elif k < 0.7:
+            lines.append("reset")
+        elif k < 0.85:
+            n, v = pick_input()
+            lines.append(f"change {n} {v}")
+            if R.random() < 0.5:
+                lines.append("reset")
+        elif k < 0.93:
+            lines.append(f"render {R.choice([1, 2, 3, 4, 5])}")
+        elif k < 0.97 and kind == "model":
+            lines.append(f"threads {R.randrange(2)}")
+        else:
+            lines.append("play")
+    if R.random() < 0.5:
+        lines.append("reset")
+    return core.Scenario(lines, {})
+
+
 def gen_scenario(R, tier):
-    return gen_space(R, tier) if R.random() < 0.4 else gen_params(R, tier)
+    k = R.random()
+    return gen_space(R, tier) if k < 0.4 else gen_ctrl(R, tier) if k < 0.52 else gen_params(R, tier)
 
 
 # ----------------------------------------------------------------------------------------------
@@ -1372,10 +1753,129 @@ def partial_optional(snap):
     return None
 
 
+def ctrl_expected_params(items):
+    """model_parameters as ModelCreator sets it: the fixed values, then the inputs at their value"""
+    fixed, user = {}, {}
+    for n, v in items:
+        f = v.split("/")
+        if f[0] == "val":
+            fixed[n] = f[1]
+        elif f[0] == "fdict":
+            fixed[n] = "dict"
+        else:
+            user[n] = "None" if f[2] == "-" else f[2]
+    return {**fixed, **user}, list(user)
+
+
+def oracle_ctrl(tr):
+    """the controls of SolaraViz: what the clauses demand of each click, judged on what the real components did"""
+    bad = []
+    params, inputs = {}, []
+    for ev in tr:
+        kind = ev[0]
+        if kind == "viz":
+            if ev[2] == "ok":
+                params, inputs = ctrl_expected_params(ev[1])
+            continue
+        if kind == "ctrl-loop-overrun":
+            bad.append(f"ctrl-loop-overrun: the play loop went on after the pause button was clicked ({ev[1]})")
+            continue
+        if kind != "ctrl":
+            continue
+        _, op, arg, before, f, extra = ev
+        got_kw = {k: ParamsImpl.val_tok(v) for k, v in f["kwargs"].items()}
+        # the flag the buttons show is the model's whenever the controller has stepped or replaced the model
+        # (seen, not counted: toggling the threads checkbox mounts the controller anew — its flags start over)
+        if (op in ("step", "reset") or (op == "loop" and extra["ticks"] > 0)) and f["running"] != f["mrunning"]:
+            bad.append(f"ctrl-running-flag: after {op} the controls show running={f['running']}, model.running is {f['mrunning']}")
+        if f["step_dis"] != (f["playing"] or not f["running"]) or f["play_dis"] != (not f["running"]):
+            bad.append(f"ctrl-buttons: after {op}: playing={f['playing']} running={f['running']} but Step disabled={f['step_dis']}, "
+                       f"play / pause disabled={f['play_dis']}")
+        if before is None:
+            continue
+        if f["gen"] < before["gen"]:
+            bad.append(f"ctrl-gen: {op} went back to an earlier model")
+        if f["gen"] == before["gen"] and f["steps"] < before["steps"]:
+            bad.append(f"ctrl-steps-monotone: {op} took model.steps from {before['steps']} to {f['steps']} without a reset")
+        if f["updates"] < before["updates"]:
+            bad.append(f"ctrl-updates: {op} decreased the update counter")
+        # the parameter set as the user's changes leave it; `snap`: what the last reset of this op saw
+        snap = None
+        if op == "change":
+            if arg[0] in inputs:
+                params = {**params, arg[0]: str(arg[1])}
+        elif op == "reset":
+            snap = dict(params)
+        elif op == "loop" and before["playing"] and before["running"]:
+            for t in arg[: max(0, extra["ticks"])]:
+                sl = t.partition("@")[0]
+                if sl.startswith("set:"):
+                    _, n, v = sl.split(":")
+                    if n in inputs:
+                        params = {**params, n: v}
+                elif sl == "reset":
+                    snap = dict(params)
+        if op == "step":
+            if (f["steps"], f["updates"], f["gen"], f["playing"]) != (before["steps"] + before["render"], before["updates"] + 1, before["gen"], False):
+                bad.append(f"ctrl-step-button: Step with render interval {before['render']} took steps {before['steps']} -> {f['steps']}, "
+                           f"updates {before['updates']} -> {f['updates']}")
+        elif op == "play":
+            if f["playing"] == before["playing"] or (f["steps"], f["gen"], f["updates"], f["running"]) != (
+                    before["steps"], before["gen"], before["updates"], before["running"]):
+                bad.append(f"ctrl-play-button: the play / pause button took playing {before['playing']} -> {f['playing']}, steps "
+                           f"{before['steps']} -> {f['steps']}")
+        elif op in ("render", "threads", "change"):
+            remount = op == "threads" and bool(arg) != before["threads"]
+            if (f["steps"], f["gen"]) != (before["steps"], before["gen"]) or (
+                    not remount and (f["playing"], f["running"]) != (before["playing"], before["running"])):
+                bad.append(f"ctrl-setting: {op} {arg} changed the run state")
+            if op == "render" and f["render"] != arg:
+                bad.append(f"ctrl-setting: render interval set to {arg}, the controls hold {f['render']}")
+        elif op == "reset":
+            if (f["gen"], f["steps"], f["playing"], f["running"]) != (before["gen"] + 1, 0, False, True):
+                bad.append(f"ctrl-reset: after Reset gen {before['gen']} -> {f['gen']}, steps={f['steps']} playing={f['playing']} running={f['running']}")
+        elif op == "loop":
+            if extra["printed"]:
+                bad.append(f"ctrl-loop-error: the play loop printed {extra['printed']!r}")
+            if not (before["playing"] and before["running"]):
+                if {k: f[k] for k in f if k != "labels"} != {k: before[k] for k in before if k != "labels"}:
+                    bad.append(f"ctrl-loop-idle: a loop started with playing={before['playing']} running={before['running']} changed {before} to {f}")
+            else:
+                if f["playing"] and f["running"]:
+                    bad.append("ctrl-loop-end: the play loop ended while playing and running")
+                plain = all(t == "-" for t in arg)
+                stop = before["kwargs"].get("stop")
+                if plain and f["gen"] == before["gen"]:
+                    r, s0, n = before["render"], before["steps"], len(arg)
+                    need = None if stop is None or stop <= s0 else -(-(int(stop) - s0) // r)
+                    if stop is not None and stop <= s0:
+                        need = 1  # running is only looked at after a step
+                    if need is not None and need <= n:
+                        want = (s0 + r * need, False, True, need)
+                    else:
+                        want = (s0 + r * (n + 1), True if stop is None or s0 + r * (n + 1) < stop else False, False, n + 1)
+                    ups = f["updates"] - before["updates"]
+                    # under threads only the tick after the pause (not playing any more) updates
+                    want_ups = want[3] if not extra.get("threads") else (1 if not want[2] else 0)
+                    if (f["steps"], f["running"], f["playing"]) != want[:3] or ups != want_ups:
+                        bad.append(f"ctrl-play-loop: {n} undisturbed ticks from step {s0} at render interval {r} on a model stopping at {stop}: "
+                                   f"steps={f['steps']} running={f['running']} playing={f['playing']} updates+{ups}, expected {want[:3]} updates+{want_ups}")
+        if snap is not None and f["gen"] > before["gen"]:
+            # the model a reset creates gets the parameter set as it then was: every name of model_params, the inputs at
+            # the value last reported
+            if got_kw != snap:
+                bad.append(f"ctrl-reset-params: the model created by the reset got {got_kw}, the parameters were {snap}")
+        elif f["gen"] == before["gen"] and f["kwargs"] != before["kwargs"]:
+            bad.append(f"ctrl-kwargs: {op} changed the model's arguments without a reset")
+    return bad
+
+
 def oracle(sc, obs):
     bad = []
     tr = sc.meta.get("trace") or []
     w0 = sc.lines[0].split()
+    if w0[1] == "ctrl":
+        return oracle_ctrl(tr)
     fam = w0[2] if w0[1] == "space" else None
     for ev in tr:
         kind = ev[0]
